@@ -334,6 +334,12 @@ def parseRule (op : String) (arg : String) : Option Rule :=
     | _ => none
   match kind, arg.splitOn "," with
   | some kind, [i, sh] =>
+    if sh.startsWith "c" then
+      -- `<op><i>,c<j>`: the rule applies to connection j alone
+      match i.toNat?, (sh.drop 1).toString.toNat? with
+      | some i, some j => some { idx := i, shard := none, conn := some j, kind, spent := false }
+      | _, _ => none
+    else
     match i.toNat?, (if sh == "*" then some none else sh.toNat?.map some) with
     | some i, some shard => some { idx := i, shard, kind, spent := false }
     | _, _ => none
@@ -363,10 +369,14 @@ def Sim.steps : List String → List String → Sim → List String → Option (
       | some sh => Sim.steps rest (impl.drop 1) s (s.query sh tok :: acc)
     | "J" => Sim.steps rest (impl.drop 1) s (s.queryOpt none tok :: acc)
     | "K" =>
-      match arg.toNat? with
-      | none => none
-      | some sh =>
-        match s.victim (if s.sharded then some sh else none) with
+      -- `Kc<j>`: connection j (the j-th the pool opened; `H<n>s` pools only, where the node staggers its handshakes
+      -- so that its accept order IS the pool's order)
+      let byId : Option (Option Nat) := if arg.startsWith "c" then (arg.drop 1).toString.toNat?.map some else some none
+      match byId, (if arg.startsWith "c" then some 0 else arg.toNat?) with
+      | none, _ => none
+      | _, none => none
+      | some byId, some sh =>
+        match (match byId with | some j => (if s.alive j then some j else none) | none => s.victim (if s.sharded then some sh else none)) with
         | some i => Sim.steps rest (impl.drop 1) (s.ev (.breakConn i)) ("k" :: acc)
         | none => Sim.steps rest (impl.drop 1) s ("k-" :: acc)
     | "W" =>
@@ -462,6 +472,8 @@ def parseMode (m : String) : Option (Bool × Nat × List Accept) :=
     | [b] => (b, some [])
     | [b, sc] => (b, (sc.splitOn ".").mapM parseAccept)
     | _ => (m, none)
+  -- `H<n>s`: the node staggers the handshakes (a property of the test node only: the model is the same)
+  let base := if base.startsWith "H" && base.endsWith "s" then (base.dropEnd 1).toString else base
   match (base.take 1).toString, (base.drop 1).toString.toNat?, script with
   | "S", some n, some sc => if 1 ≤ n ∧ n ≤ 8 then some (true, n, sc) else none
   | "H", some n, some sc => if 1 ≤ n ∧ n ≤ 8 ∧ sc.isEmpty then some (false, n, sc) else none
@@ -499,6 +511,7 @@ structure CSim where
   ss : Session
   names : List (String × Bool)
   hostMask : Nat := 0                  -- bit i: the session's host filter rejects node i (it gets no pool)
+  zeroMask : Nat := 0                  -- bit i: node i owns no tokens: the default policy never routes to it (routing only)
   rules : List (Nat × Option Nat)      -- (name index, node or all): the node answers that `USE` with an error
   muted : List Nat := []               -- nodes that do not answer `USE` at all (the statement is dropped)
   stuck : List (Nat × List (Nat × Nat)) := []   -- per node: (connection, number of dropped statements still in its queue)
@@ -554,11 +567,25 @@ def CSim.nodeRow (c : CSim) (n : Nat) : String :=
   let sorted := rows.toArray.qsort (· < ·) |>.toList
   s!"n{n}:" ++ ",".intercalate sorted
 
-def CSim.queryToks (c : CSim) : List String :=
-  c.ss.cluster.known.flatMap fun n =>
+/-- `target = some n`: the request is TARGETED at node n (SingleTargetLoadBalancingPolicy), whether it owns tokens or
+not; `none`: any known node. -/
+def CSim.queryToks (c : CSim) (target : Option Nat := none) (pre : String := "q") : List String :=
+  (c.ss.cluster.known.filter fun n => match target with | some t => t == n | none => !c.zeroMask.testBit n).flatMap fun n =>
     let p := c.ss.cluster.pools n
     ((possibleHandouts p (some 0)).filter fun i => !(p.net i).broken).map fun i =>
-      "q" ++ (match (p.net i).serverKs with | some v => srvName v | none => "-") ++ s!"@{n}"
+      pre ++ (match (p.net i).serverKs with | some v => srvName v | none => "-") ++ s!"@{n}"
+
+/-- `Session::prepare`: a PREPARE on one `random_connection` of EVERY known node that has one
+(`iter_working_connections_to_nodes`); every one of them is among the model's `workingConnections`. -/
+def CSim.prepareToks (c : CSim) (implToks : List String) : String :=
+  let perNode := c.ss.cluster.known.filterMap fun n =>
+    let p := c.ss.cluster.pools n
+    let cands := ((possibleHandouts p none).filter fun i => !(p.net i).broken && p.workingConnections.contains i).map fun i =>
+      "p" ++ (match (p.net i).serverKs with | some v => srvName v | none => "-") ++ s!"@{n}"
+    match cands with
+    | [] => none
+    | c0 :: _ => some ((implToks.find? cands.contains).getD c0)
+  if perNode.isEmpty then "p!" else ",".intercalate (perNode.toArray.qsort (· < ·)).toList
 
 def CSim.steps : List String → List String → CSim → List String → Option (List String)
   | [], _, _, acc => some acc.reverse
@@ -606,11 +633,17 @@ def CSim.steps : List String → List String → CSim → List String → Option
       let c := c.cl (.addNode true 1 (c.hostMask.testBit n))
       let c := if c.hostMask.testBit n then c else c.onNode n fun s => s.quiesce 8
       CSim.steps rest (impl.drop 1) c (s!"a{c.ss.cluster.known.length}" :: acc)
+    | "P" => CSim.steps rest (impl.drop 1) c (c.prepareToks (tok.splitOn ",") :: acc)
     | "Q" =>
-      match arg.toNat? with
-      | none => none
-      | some k =>
-        let cands := c.queryToks
+      let (karg, target) : String × Option (Option Nat) := match arg.splitOn "@" with
+        | [k] => (k, some none)
+        | [k, t] => (k, t.toNat?.map some)
+        | _ => ("", none)
+      match karg.toNat?, target with
+      | none, _ => none
+      | _, none => none
+      | some k, some target =>
+        let cands := c.queryToks target
         let subs := tok.splitOn ","
         let okAll := subs.length == min k 16 && subs.all fun t => if cands.isEmpty then t == "q!" else cands.contains t
         let t := if okAll then tok else ",".intercalate (List.replicate (min k 16) (cands.headD "q!")) ++ "(model)"
@@ -622,15 +655,18 @@ def CSim.steps : List String → List String → CSim → List String → Option
 
 def runSess (n names script impl : String) : String :=
   -- `<n>` or `<n>/<mask>`: bit i of the mask = the host filter rejects node i
-  let (n, mask) := match n.splitOn "/" with
-    | [a] => (a.toNat?, some 0)
-    | [a, m] => (a.toNat?, m.toNat?)
-    | _ => (none, none)
-  match n, mask, parseNames names with
+  -- a third field `/<zmask>`: bit i = node i owns no tokens. The model has no tokens: the fan-out addresses every
+  -- known node (`fanout_targets_every_known_node`), so the mask changes nothing here - the implementation must agree
+  let (n, mask, zmask) := match n.splitOn "/" with
+    | [a] => (a.toNat?, some 0, some 0)
+    | [a, m] => (a.toNat?, m.toNat?, some 0)
+    | [a, m, z] => (a.toNat?, m.toNat?, z.toNat?)
+    | _ => (none, none, none)
+  match n, mask, zmask.bind (fun z => if z < 256 then parseNames names else none) with
   | some n, some mask, some names =>
-    if n < 1 ∨ n > 4 ∨ mask ≥ 256 then "bad-case"
+    if n < 1 ∨ n > 4 ∨ mask ≥ 256 ∨ (List.range n).all (fun i => (zmask.getD 0).testBit i) then "bad-case"
     else
-      let c0 : CSim := { ss := Session.init true 1, names, rules := [], hostMask := mask }
+      let c0 : CSim := { ss := Session.init true 1, names, rules := [], hostMask := mask, zeroMask := zmask.getD 0 }
       let c := (List.range n).foldl (fun c i => c.cl (.addNode true 1 (mask.testBit i))) c0
       match CSim.steps ((script.splitOn ";").filter (· ≠ "")) (impl.splitOn ";") c [] with
       | some toks => ";".intercalate toks
